@@ -161,6 +161,17 @@ def core_scenarios():
     S.append(("empty_block_then_other_topic", "strict", "E:a:1073741825 A:b:10 A:b:20 O R:b R:b"))
     S.append(("empty_block_read_before", "strict", "E:a:1073741825 A:b:10 R:b A:b:20 O R:b O A:b:5 R:b"))
     S.append(("empty_block_tail_cursor", "strict", "A:b:10 E:a:1073741825 A:c:10 R:c O A:c:20 R:c R:b O R:c"))
+    # the last block of a file filled to within less than one header (256 bytes) of the end of the file, then a restart (C06, C16)
+    fill99 = " ".join("A:f%02d:10" % i for i in range(99))
+    last = " ".join(["A:z:1048310"] * 10)
+    for be in ("", "+mmap"):
+        S.append(("last_block_almost_full_restart" + be.replace("+", "_"), "strict" + be, "%s %s O R:z R:f00 A:z:5 R:z" % (fill99, last)))
+    # entries above 10 MiB: the block spans several 10 MiB units; entries behind the big one must survive a restart (C06, C07)
+    S.append(("big_then_small_restart", "strict", "A:t:15728640 A:t:100 A:t:200 O R:t R:t R:t"))
+    S.append(("big_then_small_other_topic", "strict", "A:a:10 A:t:15728640 A:b:20 A:t:100 O R:t R:t R:a R:b"))
+    S.append(("big_restart_append", "strict", "A:t:15728640 O A:t:100 R:t R:t O R:t A:t:5 R:t"))
+    S.append(("small_big_small", "strict", "A:t:100 A:t:12000000 A:t:200 A:t:300 R:t O R:t R:t R:t"))
+    S.append(("big_batch_restart", "strict", "B:t:100,12000000,300 A:u:7 B:t:5 O R:t R:t R:t R:t R:u"))
     S.append(("stateless_alo_cursor", "alo3", "A:t:300 A:t:300 A:t:300 A:t:300 A:t:300 A:t:300 R:t S:t:1048576:1:0 P:t R:t"))
     # clean/dirty markers across immediate and delayed clean restarts (C17)
     S.append(("clean_immediate_reopen", "strict", "A:t:10 OI P:t C:t OI P:t D:t OI P:t"))
